@@ -126,3 +126,18 @@ func init() {
 		},
 	}
 }
+
+func init() {
+	metaTable["C10"] = propMeta{Level: "exploration", CrashIsViolation: true,
+		Assumptions: []string{
+			"oracle = independent reference framer (first two bits 00 -> STUN 20+length, 01 -> ChannelData 4+length padded to 4, else invalid)",
+			"the stream is delivered through a scripted net.Conn that returns exactly the prescribed chunks; caller buffers are larger than any frame (70000 bytes)",
+			"un-frameable bytes may be reported as an error immediately or only once 20 bytes have arrived - both satisfy 'error rather than data'",
+		},
+		Rule: "8 of 10 cases: a random sequence of 1-6 frames (STUN bodies aligned/unaligned, ChannelData payloads 0..1500 incl. 0-8 bytes and cookie-prefixed, numbers at range edges) optionally followed by an incomplete frame or un-frameable bytes, fed whole, byte-at-a-time, with every single cut and (thorough: every, quick: 1/12 of the) pair of cuts when the stream is <= 200 bytes, and 25 random multi-cut segmentations; each ReadFrom result is compared with the reference frame list, promptness is judged on the number of Reads consumed; " +
+			"1 of 10: length fields 0xFFE0..0xFFFF for both frame kinds incl. header-only prefixes; 1 of 10: client BindConnection over success/error replies cut at every position with trailing application bytes; " +
+			"non-trivial = distinct (frame count, tail kind, small/large) / (kind, extreme length) / (bind outcome, trailing bytes) fingerprints",
+		NonTrivial: func(fp string) bool { return true },
+		Exhaustive: func(tier string, ev map[string]int) bool { return false },
+	}
+}
